@@ -18,6 +18,9 @@ CLAIMED = {
  "C04": ("Deductive proof that parsing and matching implement the documented cron rules: getBits equals the recursive bit-set spec for stepped ranges (bit-vector mode), getRange accepts exactly the documented forms with the documented value, getField is the union of its terms, normalizeFields accepts exactly the documented field counts and fills defaults/optionals on the documented side, the five descriptors equal their documented equivalents bit for bit, Parse wires the six fields in order and refuses empty specs, unknown zones, descriptors when disabled; dayMatches (and/or rule), Every and ConstantDelaySchedule.Next; the package tables are verified in the initializer.",
          "Assumes contracts of strings/strconv/time (uninterpreted atoi/lower/split facts in /verif/libspec/strings_time.spec), int-view bridging of the bit-vector functions. The minimality/soundness of SpecSchedule.Next's calendar search depends on the time package's calendar arithmetic and is NOT proved (safety only); it is listed as not covered.",
          "DESIGN.md §6 C04"),
+ "C06": ("Deductive proof of the sequential kernel of queue.Processor: the keyed priority queue keeps its index/heap/map invariant through Insert (with replace), Remove, Pop, Peek, Update; Less is the strict order on ScheduledTime; execute calls the callback only with the item that is the head at pop time under the lock and equals the peeked one; processLoop reaches execute only if the item is due within 500 microseconds or after the timer armed with exactly the remaining time fired; Enqueue/Dequeue compute isFirst exactly and call process under the lock.",
+         "container/heap is an assumed contract (heap.spec); Queueable methods are assumed pure. Not covered (outside this family): the stranded-item liveness question, Close/WaitGroup ordering, exactly-once over whole histories, timer semantics.",
+         "DESIGN.md §6 C06"),
  "C07": ("Deductive proof of absence of panics for the entry points under contract: every index, slice, nil-dereference, division, make, type-assertion and explicit-panic obligation generated from the SSA is discharged for all inputs, callee documented panics (CryptBlocks, NewCBCDecrypter, Seal, ed25519.Verify, ...) are excluded by proof; loops carry variants where stated.",
          "Assumes libspec contracts incl. their documented panics, address-space bound on lengths (2^56), govc's encoding. Entry points outside the contract files (reflection-based metadata/config decoding, time parsing, pem) are not covered and are listed in DESIGN.md.",
          "DESIGN.md §6 C07"),
@@ -45,6 +48,9 @@ CLAIMED = {
  "C18": ("Deductive proof against a ghost filesystem: the crash invariant (target absent, or a symlink to a complete version directory that is not the one being filled) is asserted after every filesystem call of Write, i.e. at every crash point, for every file map; no-crash postconditions; recoverability: a fresh Dir writing from any crash-reachable state succeeds when the individual os calls do not fail for external reasons.",
          "Assumes the os/filepath contracts in /verif/libspec/os_fs.spec (POSIX rename atomicity, symlink semantics), completeness of Go's range over a map (listed), distinct time stamps, single writer.",
          "DESIGN.md §6 C18"),
+ "C19": ("Deductive proof of the sequential laws of the SPIFFE source and of the readiness wait order: no goroutine blocks on readyCh while holding the lock Run needs (at-assert at every blocking receive/select); Run closes readyCh exactly once before unlocking on both paths and sets currentSVID iff the fetch succeeded; GetX509SVID returns the current SVID or an error; renewalTime is the half-life; runRotation arms min(1 min, renewTime-now), fetches after the wake-up past renewTime, never writes currentSVID on the error path and retries after 10 s; fetchIdentityCertificate uses a key generated in the same activation and hands dir.Write exactly {key.pem, cert.pem, ca.pem}.",
+         "Assumes contracts for x509/ecdsa/pem/clock (spiffe_libs.spec), the dir.Write contract (verified separately). Wall-clock timeliness of renewal across goroutines is outside this family and not claimed.",
+         "DESIGN.md §6 C19"),
  "C20": ("Deductive proof of the 'never earlier' half for all interleavings: the watcher goroutine calls cancel() only when every member it tracked at its last look has ended or Cancel was called (loop invariant under the read lock, rely/guarantee across the lock gap, each writer section proved to satisfy the rely); Add/Cancel/Size against the sequential model of their critical section.",
          "Channel contract (a receive from a Done channel returns only once it is closed; select takes default only if no case is ready) and monitor rule assumed. Eventual cancellation and termination of the watcher are liveness and not claimed.",
          "DESIGN.md §6 C20, §3.4"),
